@@ -33,3 +33,49 @@ Lemma live_av_plain : forallb (fun ci => match c_kind ci with
                                         | KPlain => true
                                         end) live_table = true.
 Proof. vm_compute. reflexivity. Qed.
+
+(* round 7: the BRACKETS of a child entry (ch_list: ("member", [Class]) versus ("member", Class)) agree with what the class
+   declares in c_cardinality (no max, or max > 1: repeatable) - for every child entry with a member class and a cardinality
+   entry.  The model parses along ch_list (a list member appends, a singleton keeps the last occurrence): an entry that lost
+   its brackets would make model and implementation drop repeated children together. *)
+Definition card_many (ci : class_info) (m : string) : option bool :=
+  match find (fun p => String.eqb (fst p) m) (c_cardinality ci) with
+  | Some (_, (_, None)) => Some true
+  | Some (_, (_, Some n)) => Some (1 <? n)%nat
+  | None => None
+  end.
+
+Definition brackets_ok_b (ci : class_info) : bool :=
+  forallb (fun s => match ch_class s, card_many ci (ch_member s) with
+                    | Some _, Some b => Bool.eqb b (ch_list s)
+                    | _, _ => true
+                    end) (c_children ci).
+
+Lemma live_brackets_ok : forallb brackets_ok_b live_table = true.
+Proof. vm_compute. reflexivity. Qed.
+
+(* ... hence: a child of a live class that the class declares repeatable is list-valued in the table the model runs on *)
+Lemma live_repeatable_is_list c ci s :
+  class_at live_table c = Some ci -> In s (c_children ci) -> ch_class s <> None ->
+  card_many ci (ch_member s) = Some true -> ch_list s = true.
+Proof.
+  intros Hc Hs Hk Hm.
+  pose proof live_brackets_ok as P. rewrite forallb_forall in P.
+  assert (In_ci : In ci live_table) by (unfold class_at in Hc; eapply nth_error_In; exact Hc).
+  specialize (P ci In_ci). unfold brackets_ok_b in P. rewrite forallb_forall in P. specialize (P s Hs).
+  rewrite Hm in P. destruct (ch_class s); [|contradiction Hk; reflexivity].
+  destruct (ch_list s); [reflexivity|discriminate P].
+Qed.
+
+(* ... and one the class declares single-valued is a singleton *)
+Lemma live_single_is_single c ci s :
+  class_at live_table c = Some ci -> In s (c_children ci) -> ch_class s <> None ->
+  card_many ci (ch_member s) = Some false -> ch_list s = false.
+Proof.
+  intros Hc Hs Hk Hm.
+  pose proof live_brackets_ok as P. rewrite forallb_forall in P.
+  assert (In_ci : In ci live_table) by (unfold class_at in Hc; eapply nth_error_In; exact Hc).
+  specialize (P ci In_ci). unfold brackets_ok_b in P. rewrite forallb_forall in P. specialize (P s Hs).
+  rewrite Hm in P. destruct (ch_class s); [|contradiction Hk; reflexivity].
+  destruct (ch_list s); [discriminate P|reflexivity].
+Qed.
